@@ -46,13 +46,15 @@ def parse(outs):
     """lines: 'SCN <id> OK|FAIL <props> <text>' ; 'DONE <n>'"""
     scn = []; bad = []
     for c, rc, o in outs:
-        if rc < 0: bad.append((c, o[:600])); continue
+        if rc < 0 and o.startswith(('COMPILE-ERROR', 'compile timeout', 'run timeout')): bad.append((c, o[:600])); continue
         done = False
         for l in o.splitlines():
             m = re.match(r'SCN (\S+) (OK|FAIL) (\S+) ?(.*)', l)
             if m: scn.append(dict(config=c, id=c + '/' + m.group(1), status=m.group(2), props=m.group(3).split(','), text=m.group(4)))
             if l.startswith('DONE'): done = True
-        if not done: bad.append((c, 'program did not finish: rc=%s %s' % (rc, o[-400:])))
+        if not done:
+            # the real code crashed (signal / abort) inside the family: that is a refutation on the real code, not an undecided proof
+            scn.append(dict(config=c, id=c + '/crash', status='FAIL', props=['*'], text='replay program terminated abnormally (rc=%s) after: %s' % (rc, o[-200:].replace('\n', ' | '))))
     return scn, bad
 
 def run_families(prop, fams, wd, kf, seed):
@@ -64,7 +66,7 @@ def run_families(prop, fams, wd, kf, seed):
         scn, bad = parse(outs)
         for c, why in bad: res['undecided'].append(dict(family=fam + '/' + c, reason=why.replace('\n', ' ')[:300]))
         for s in scn:
-            if prop not in s['props']: continue
+            if prop not in s['props'] and '*' not in s['props']: continue
             res['scenarios'] += 1
             if s['status'] == 'FAIL':
                 hit = None
@@ -104,7 +106,7 @@ def witness_for(prop, v, wd, seed):
         outs = build_and_run(fam, wd)
         if outs is None: continue
         scn, bad = parse(outs)
-        fails = [s for s in scn if s['status'] == 'FAIL' and prop in s['props']
+        fails = [s for s in scn if s['status'] == 'FAIL' and (prop in s['props'] or '*' in s['props'])
                  and not any(f.matches_scenario(prop, fam, s['id']) for f in kf['findings'])]
         if fails:
             native = True
